@@ -174,6 +174,14 @@ struct World {
 };
 static World* Wd = nullptr;
 
+// C17 across threads: a tracer installed by the main thread before the workers start is the most recently
+// constructed live tracer for every accepted call, whichever thread makes it
+struct CountTracer : trompeloeil::tracer {
+  std::vector<std::string> records;   // trace() runs inside the mock call, under the library's lock
+  void trace(char const*, unsigned long, std::string const& call) override { records.push_back(call); }
+};
+static bool g_c17 = false;
+
 static void install_reporter() {
   trompeloeil::set_reporter([](trompeloeil::severity s, char const*, unsigned long, std::string const& msg) {
     auto starts = [&](const char* p) { return msg.rfind(p, 0) == 0; };
@@ -712,6 +720,8 @@ static RunResult run_program(const Program& p, bool sched_mode) {
       prec.push_back(r);
     }
   }
+  std::unique_ptr<CountTracer> tracer;
+  if (g_c17) tracer = std::make_unique<CountTracer>();
   std::atomic<int> go{0};
   shim::sched_on = sched_mode;
   for (int t = 0; t < shim::MAXT; ++t) shim::st[t] = shim::IDLE;
@@ -758,6 +768,20 @@ static RunResult run_program(const Program& p, bool sched_mode) {
   }
   for (auto& t : th) t.join();
   shim::sched_on = false;
+  std::string tracer_problem;
+  if (tracer) {
+    size_t accepted = 0, fatal_calls = 0;
+    for (int t = 0; t < p.nthreads; ++t) for (auto& r : recs[static_cast<size_t>(t)]) {
+      if (r.op.kind != T_CALL && r.op.kind != T_MOCKLIFE) continue;
+      if (r.observed.rfind("R:", 0) == 0) ++accepted;
+      else if (r.observed.rfind("fatal", 0) == 0) ++fatal_calls;
+    }
+    size_t got = tracer->records.size();
+    // a rejected (forbidden / out-of-sequence) call may or may not be traced; every accepted call must be, exactly once
+    if (got < accepted || got > accepted + fatal_calls)
+      tracer_problem = "tracer installed by the main thread received " + std::to_string(got) + " records for " + std::to_string(accepted) + " accepted calls made by the worker threads (" + std::to_string(fatal_calls) + " rejected)";
+    tracer.reset();
+  }
   // epilogue: main thread releases whatever is left, as operations of its own (checked as well)
   std::vector<OpRec> all;
   for (auto& r : prec) all.push_back(r);
@@ -806,6 +830,7 @@ static RunResult run_program(const Program& p, bool sched_mode) {
     }
     for (auto& kv : touch) if (kv.second.size() >= 2) rr.shared_touch = true;
   }
+  if (g_c17) { rr.problem = tracer_problem; return rr; }   // under C17 only the tracing rule is judged (linearizability belongs to C12)
   long searched = 0;
   rr.problem = linearizable(all, &searched);
   if (searched) ST.label("placement_searches", static_cast<uint64_t>(searched));
@@ -834,7 +859,7 @@ static void save_current(const Program& p, const char* mode) {
     g_cur_fd = open(path.c_str(), O_CREAT | O_WRONLY | O_TRUNC, 0644);
     if (g_cur_fd < 0) return;
   }
-  std::string t = "# engine=T prop=C12 mode=" + std::string(mode) + "\n# case in progress when the process ended\n" + program_text(p);
+  std::string t = "# engine=T prop=" + A.prop + " mode=" + std::string(mode) + "\n# case in progress when the process ended\n" + program_text(p);
   if (pwrite(g_cur_fd, t.data(), t.size(), 0) == static_cast<ssize_t>(t.size())) { if (ftruncate(g_cur_fd, static_cast<off_t>(t.size())) != 0) {} }
 }
 
@@ -846,8 +871,8 @@ static bool check_program(const Program& p, bool sched, std::string* why, RunRes
   if (out) *out = r;
   if (!r.problem.empty()) {
     if (why) *why = r.problem;
-    std::string path = A.faildir + "/t_fail.C12." + std::to_string(getpid()) + ".txt";
-    vc::write_file(path, "# engine=T prop=C12 mode=" + std::string(mode) + "\n# " + r.problem + "\n" + program_text(p));
+    std::string path = A.faildir + "/t_fail." + A.prop + "." + std::to_string(getpid()) + ".txt";
+    vc::write_file(path, "# engine=T prop=" + A.prop + " mode=" + std::string(mode) + "\n# " + r.problem + "\n" + program_text(p));
     g_last_fail = path;
     return false;
   }
@@ -943,6 +968,7 @@ static bool enumerate_all(Program p, long* count, std::string* why, long cap) {
 int main(int argc, char** argv) {
   A = vc::parse_args(argc, argv);
   g_search_budget = A.geti("budget", 50000);
+  g_c17 = A.prop == "C17";
   std::string mode = A.get("mode", "A");   // A: free-running (TSan build), B: owned random schedules, E: exhaustive schedules of tiny programs
   ST.rule = "rapidcheck generates programs of 2..N threads x 1..6 operations {call, create (6 spellings of IN_SEQUENCE/TIMES order), release, "
             "is_satisfied, is_saturated, is_completed, watch/kill/unwatch a thread-private deathwatched object (optionally in a shared sequence), "
